@@ -244,8 +244,15 @@ class CallMixin:
             arg_ts, ret_t, fs = self.ufun(name)
             zs = []
             for a, t in zip(args, arg_ts):
-                zs += coerce(self.as_value(a), t).zs
-            yield st, V(ret_t, [f(*zs) for f in fs])
+                a = self.as_value(a)
+                if isinstance(a.t, TOpt) and not isinstance(t, TOpt):
+                    a = opt_val(a)        # spec functions are total: the value component of an Optional argument
+                if isinstance(a.t, TRef) and isinstance(t, TRef) and a.t.cls != t.cls:
+                    a = V(t, a.zs)        # a reference typed with a sub/superclass
+                zs += coerce(a, t).zs
+            res_ = V(ret_t, [f(*zs) for f in fs])
+            # the value of a spec function is a well-formed value of its type (e.g. a float's kind tag is one of four)
+            yield (self.assume_wf(st, res_) if isinstance(ret_t, (TFloat, TOpt)) else st), res_
             return
         if name.startswith("time."):
             yield from self.bi_time_time(st, args, kw, node)
